@@ -7,7 +7,7 @@ from hypothesis import strategies as st
 from vlib import gens
 from vlib.core import Prop, Sub, Violation, calling, check
 from vlib.oracles import bvls, lp_dist
-from vlib.systems import NOMINAL_RANGE, Sys, matrix_system, target_rows
+from vlib.systems import NOMINAL_RANGE, proportional_variant, Sys, matrix_system, target_rows
 
 HIGH_ACC = dict(solver="CLARABEL", tol_gap_abs=1e-9, tol_gap_rel=1e-9, tol_feas=1e-9, max_iter=500)
 TOL = {"default": dict(cap=2e-2, frac=1e-2), "high": dict(cap=2e-3, frac=1e-6)}
@@ -27,6 +27,7 @@ def weights(draw, m, nrows):
 def fit_case(draw, accuracy=None):
     shape = draw(st.sampled_from([None, None, "under", "exact", "over"]))
     sysd = draw(matrix_system(m=(1, 5), n=(1, 8), shape=shape))
+    sysd, _prop = draw(proportional_variant(sysd, one_in=6))
     rows = draw(target_rows(sysd, ["interior", "interior", "facet", "vertex", "near_in", "near_out", "outside", "scaled_out", "below", "below", "random"], nrows=(1, 4)))
     m = len(sysd["A"])
     W = draw(weights(m, len(rows)))
@@ -34,7 +35,7 @@ def fit_case(draw, accuracy=None):
         W = np.maximum(np.asarray(W, dtype=float), 0.3).tolist()
     return dict(system=sysd, rows=rows, W=W, entry=draw(st.sampled_from(["function", "estimator"])),
                 accuracy=(draw(st.sampled_from(["default", "default", "high"])) if accuracy is None else accuracy),
-                layout=draw(st.sampled_from(["C", "C", "F", "strided"])))
+                layout=draw(st.sampled_from(["C", "C", "F", "strided"])), proportional=_prop)
 
 
 def run_fit(sv: Sys, B, W, entry, opt):
@@ -71,7 +72,7 @@ def body_fit(case):
     tol = TOL[acc]
     B0 = B.copy()
     X, Bp = run_fit(sv, B, W, case["entry"], opt)
-    labs = sv.labels() + [f"entry:{case['entry']}", f"acc:{acc}", "W:" + ("none" if W is None else ("vector" if np.ndim(W) == 1 else "matrix"))]
+    labs = sv.labels() + [f"entry:{case['entry']}", f"acc:{acc}", "W:" + ("none" if W is None else ("vector" if np.ndim(W) == 1 else "matrix"))] + (["proportional-sources"] if case.get("proportional") else [])
     check(np.array_equal(B, B0), "fit:targets-modified", "fit modified the caller's target array")
     # (a) shapes
     check(X.shape == (B.shape[0], sv.n) and Bp.shape == B.shape, "fit:shape", f"X {X.shape}, B_pred {Bp.shape} for {B.shape[0]} targets, {sv.n} sources")
